@@ -69,6 +69,14 @@ func WireString(t *rapid.T, label string, max int) string {
 		}
 	}
 	var n int
+	if max >= 1<<20 && rapid.IntRange(0, 199).Draw(t, label+".huge") == 101 {
+		// beyond a megabyte (32-bit length prefixes have no limit of their own)
+		n = rapid.SampledFrom([]int{1<<20 - 1, 1 << 20, 1<<20 + 1, 3<<20 + 5}).Draw(t, label+".hugeLen")
+		if n > WireMax {
+			n = WireMax
+		}
+		return BuildString(n, rapid.SampledFrom(fills).Draw(t, label+".fill"))
+	}
 	switch rapid.IntRange(0, 9).Draw(t, label+".kind") {
 	case 0, 1, 2, 3: // small free-form
 		if max < 40 {
@@ -129,7 +137,7 @@ func globalEndResp(t *rapid.T) message.AbstractGlobalEndResponse {
 func branchEndReq(t *rapid.T) message.AbstractBranchEndRequest {
 	return message.AbstractBranchEndRequest{Xid: WireString(t, "xid", 65535), BranchId: anyID(t, "branchId"),
 		BranchType: branch.BranchType(anyByte(t, "btype")), ResourceId: WireString(t, "resource", 65535),
-		ApplicationData: []byte(WireString(t, "appData", 1<<20))}
+		ApplicationData: []byte(WireString(t, "appData", 1<<22))}
 }
 
 func branchEndResp(t *rapid.T) message.AbstractBranchEndResponse {
@@ -148,7 +156,7 @@ func identResp(t *rapid.T) message.AbstractIdentifyResponse {
 
 func registerLike(t *rapid.T) message.BranchRegisterRequest {
 	return message.BranchRegisterRequest{Xid: WireString(t, "xid", 65535), BranchType: branch.BranchType(anyByte(t, "btype")),
-		ResourceId: WireString(t, "resource", 65535), LockKey: WireString(t, "lockKey", 1<<20), ApplicationData: []byte(WireString(t, "appData", 1<<20))}
+		ResourceId: WireString(t, "resource", 65535), LockKey: WireString(t, "lockKey", 1<<22), ApplicationData: []byte(WireString(t, "appData", 1<<22))}
 }
 
 // WireMessage draws a value of the message type with the given Seata type code.
@@ -181,7 +189,7 @@ func WireMessage(t *rapid.T, code int) interface{} {
 		return message.BranchRegisterResponse{AbstractTransactionResponse: txResp(t), BranchId: anyID(t, "branchId")}
 	case 13:
 		return message.BranchReportRequest{Xid: WireString(t, "xid", 65535), BranchId: anyID(t, "branchId"), ResourceId: WireString(t, "resource", 65535),
-			Status: branch.BranchStatus(anyByte(t, "bstatus")), ApplicationData: []byte(WireString(t, "appData", 1<<20)), BranchType: branch.BranchType(anyByte(t, "btype"))}
+			Status: branch.BranchStatus(anyByte(t, "bstatus")), ApplicationData: []byte(WireString(t, "appData", 1<<22)), BranchType: branch.BranchType(anyByte(t, "btype"))}
 	case 14:
 		return message.BranchReportResponse{AbstractTransactionResponse: txResp(t)}
 	case 15:
@@ -201,7 +209,7 @@ func WireMessage(t *rapid.T, code int) interface{} {
 	case 102:
 		return message.RegisterTMResponse{AbstractIdentifyResponse: identResp(t)}
 	case 103:
-		return message.RegisterRMRequest{AbstractIdentifyRequest: identReq(t), ResourceIds: WireString(t, "resourceIds", 1<<20)}
+		return message.RegisterRMRequest{AbstractIdentifyRequest: identReq(t), ResourceIds: WireString(t, "resourceIds", 1<<22)}
 	case 104:
 		return message.RegisterRMResponse{AbstractIdentifyResponse: identResp(t)}
 	}
